@@ -352,8 +352,9 @@ structure Obj where
   data : Bytes
 deriving Repr, DecidableEq, Inhabited
 
-/-- `iplddecoders.Kind(data[1])`.  The real code panics (index out of range) when a node has fewer than two
-    bytes; the driver answers `panic` for such CARs without consulting `run` (see `Car.kinded`). -/
+/-- `iplddecoders.GetKind(data)` = `data[1]`.  For a node with fewer than two bytes the real code returns an error
+    from `Run` (since fix 74d949c; it panicked before); the driver answers `err` for such CARs without consulting
+    `run` (see `Car.kinded`). -/
 def kindOf (d : Bytes) : UInt8 := d.getD 1 0
 
 def Obj.kind (o : Obj) : UInt8 := kindOf o.data
